@@ -2,6 +2,7 @@ package props
 
 import (
 	"errors"
+	"net"
 	"time"
 
 	"github.com/bluenviron/gomavlib/v3"
@@ -196,6 +197,11 @@ func c13Body() func(h []dsim.Rec) {
 		}
 		kind := 1 + dsim.Choose(4)
 		sick[l] = kind
+		// the shape a failing socket gives its error: a bare error or a net.Error that is not a timeout
+		werr := error(errInjectedWrite)
+		if dsim.Choose(2) == 1 {
+			werr = &net.OpError{Op: "write", Net: "tcp", Err: errInjectedWrite}
+		}
 		node := l.conn.Peer
 		k := node.WriteCount() + 1 + dsim.Choose(30)
 		f := world.Faults{}
@@ -206,9 +212,9 @@ func c13Body() func(h []dsim.Rec) {
 				unblockAt[l] = time.Duration(500+dsim.Choose(8000)) * time.Millisecond
 			}
 		case sickFailOnce:
-			f.WriteErrAt, f.WriteErr, f.WriteErrOnce = k, errInjectedWrite, true
+			f.WriteErrAt, f.WriteErr, f.WriteErrOnce = k, werr, true
 		case sickFailForever:
-			f.WriteErrAt, f.WriteErr = k, errInjectedWrite
+			f.WriteErrAt, f.WriteErr = k, werr
 		}
 		node.SetFaults(f)
 		dsim.Record("sick", l.name+" "+sickNames[kind], nil, int64(l.id), int64(kind), int64(k))
